@@ -305,6 +305,28 @@ def recognise_end_around(I, repo, fn_node, mod):
     return "no fold loop"
 
 
+MAX_SUM = 4096 * 255      # the property quantifies over images of 0..4096 bytes
+
+
+def reference_checksum(s):
+    return 0 if s == 0 else ((s - 1) % 65535) + 1
+
+
+def decide_by_valuation(ck, where, expr, S, what, lo=0, hi=None):
+    """complete valuation of a loop-free checksum expression over every byte sum the property's images can have"""
+    hi = MAX_SUM if hi is None else min(hi, MAX_SUM)
+    try:
+        f = sym.compile_int(expr, {S: "s"})
+    except ValueError as ex:
+        raise Unknown(f"checksum expression {expr!r} is neither a recognised idiom nor a loop-free integer expression ({ex})") from None
+    for s_ in range(max(lo, 0), hi + 1):
+        if f(s_) != reference_checksum(s_):
+            ck.violation(where, f"the tape checksum {what} is {expr!r}: for a byte sum of {s_} (0x{s_:X}) it gives 0x{f(s_):04X}, the 16-bit end-around-carry sum is 0x{reference_checksum(s_):04X}",
+                         construct="checksum is not an end-around-carry sum", expected="16-bit sum with end-around carry", found=repr(expr))
+            return
+    ck.instance("checksum-valuation", {"expression": repr(expr), "sums checked": MAX_SUM + 1}, fn=where)
+
+
 def rule_R6(ck):
     repo = ck.repo
     where = "bk_wav::encode_as_wav"
@@ -315,25 +337,30 @@ def rule_R6(ck):
     if cks is None:
         raise Unknown("no '<H' checksum word found in the tape stream")
     S = sym.op("sum", CODE)
-    if cks == sym.mod(S, 65535):
-        ck.violation(where, "the tape checksum is sum(code) mod 65535: for a byte sum that is a non-zero multiple of 65535 it gives 0 where the end-around-carry sum is 0xFFFF",
-                     construct="checksum sum % 65535", expected="16-bit sum with end-around carry", found=repr(cks))
-        return
-    if cks in (sym.mod(S, 65536), sym.band(S, 0xffff), S):
-        ck.violation(where, f"the tape checksum is {cks!r}: carries out of bit 15 are dropped, BK tape wants them added back (end-around carry)", construct="checksum truncation",
-                     expected="16-bit sum with end-around carry", found=repr(cks))
-        return
     if is_sym(cks) and cks[:2] == ("op", "apply") and list(cks[3:]) == [CODE]:
         fname = cks[2]
         fn = repo.func(f"bk_wav::{fname}")
         I = eager_interp(repo)
         why = recognise_end_around(I, repo, fn, repo.module("bk_wav"))
-        ck.instance("checksum-helper", {"helper": fname, "recognised": why is None}, fn=f"bk_wav::{fname}")
+        ck.instance("checksum-helper", {"helper": fname, "fold-loop idiom": why is None}, fn=f"bk_wav::{fname}")
         if why is None:
             return
-        # second accepted idiom: closed form, decided by cells on s
-        raise Unknown(f"checksum helper {fname}: {why} (not one of the recognised end-around-carry idioms)")
-    raise Unknown(f"checksum expression {cks!r} is not a recognised form")
+        # not the fold loop: a loop-free body is decided by complete valuation
+        has_loop = any(isinstance(n, (ast.While, ast.For)) for n in ast.walk(fn))
+        if has_loop:
+            raise Unknown(f"checksum helper {fname}: {why} (a loop that is not the recognised end-around-carry fold)")
+        I2 = eager_interp(repo)
+        I2.add_cell(S, 0, None)
+        ps = I2.explore(lambda: I2.call(I2.module_get("bk_wav", fname), [CODE], {}))
+        for p in ps:
+            if p.kind != "return" or any(k[0] not in ("le", "eq", "lt") for k, _ in p.decisions):
+                raise Unknown(f"checksum helper {fname} has a path that is not decided by the byte sum alone: {p} {p.decisions}")
+            cell = p.cells[S]
+            decide_by_valuation(ck, f"bk_wav::{fname}", p.value, S, f"computed by {fname}() for sums in {cell}", lo=cell.lo or 0, hi=cell.hi)
+        return
+    if not sym.contains(cks, S):
+        raise Unknown(f"checksum expression {cks!r} is not a function of sum(code)")
+    decide_by_valuation(ck, where, cks, S, "in the tape stream")
 
 
 def rule_R3_quiet(ck):
